@@ -6,12 +6,20 @@ pub mod sync {
         // a sender is identified by the ghost id of its channel
         pub struct Sender<T> { pub ghost chan: int, pub _p: core::marker::PhantomData<T> }
         pub struct Receiver<T> { pub ghost chan: int, pub _p: core::marker::PhantomData<T> }
+        #[verifier::external_body]
+        pub fn channel<T>(buffer: usize) -> (r: (Sender<T>, Receiver<T>)) ensures !r.1.all_senders_dropped(), { unimplemented!() }
         // what is known about every value taken out of a queue (the invariant the senders maintain; see client::message::axiom_queue_inv)
         pub uninterp spec fn queue_inv<T>(v: T) -> bool;
         impl<T> Receiver<T> {
+            // true once every Sender of this channel has been dropped (it stays false while the owner of the receiver keeps a sender)
+            pub uninterp spec fn all_senders_dropped(&self) -> bool;
             // the environment decides what arrives and when; None = every sender has been dropped
             #[verifier::external_body]
-            pub async fn recv(&mut self) -> (r: Option<T>) ensures final(self).chan == old(self).chan, r matches Some(v) ==> queue_inv(v), { unimplemented!() }
+            pub async fn recv(&mut self) -> (r: Option<T>)
+                ensures final(self).chan == old(self).chan, r matches Some(v) ==> queue_inv(v),
+                    r is None ==> old(self).all_senders_dropped(),
+                    !old(self).all_senders_dropped() ==> !final(self).all_senders_dropped(),
+            { unimplemented!() }
         }
     }
 }
@@ -38,3 +46,4 @@ pub mod time {
     pub async fn sleep_until(deadline: Instant) { unimplemented!() }
 }
 //@trusted tokio::time::{Instant, sleep_until}: opaque; a timer fires no earlier than its deadline (not modelled)
+//@include-if accept frag/tokio_net_accept.tpl
